@@ -31,6 +31,15 @@ def down_oracle(doubled: str, vul: bool):
 
 
 def run(chk):
+    complete_domain(chk)
+    structural(chk)
+    chk.explanation = ('R5: calc_score (with Contract.is_vul / is_passed_out and calc_bid_score below it) is folded on its COMPLETE finite domain - 35 bids x '
+                       'undoubled/doubled/redoubled x 4 board vulnerabilities x 4 declarers x 0..13 tricks = 23520 points - and every result compared with the '
+                       'duplicate scoring table written out in this checker (Law 77: trick points, part-score / game / slam bonuses, insult, overtricks, '
+                       'undertricks).  ' + chk.explanation.replace(' The arithmetic of calc_bid_score for individual inputs is NOT decided (runtime values).', ''))
+
+
+def structural(chk):
     repo = chk.repo
     f = Folder(repo)
     chk.explanation = (
@@ -40,7 +49,6 @@ def run(chk):
         'and the trick parameter. R3: passed-out contracts fold to 0 before anything else. R4: the six undertrick tables are '
         'bound to (doubling, vulnerability) by the guards that select them and compared with the closed form of the Laws; the '
         'index is tricks short - 1. The arithmetic of calc_bid_score for individual inputs is NOT decided (runtime values).')
-    chk.assumptions.append('calc_bid_score arithmetic per input is pinned by the exhaustive existing test (not decided statically)')
     vuls = f.members('Vul')
     players = f.members('Player')
     bids = f.members('Bid')
@@ -143,3 +151,89 @@ def run(chk):
                 (f'{first_bad[0]} {"redoubled" if first_bad[1] == "xx" else "doubled" if first_bad[1] == "x" else "undoubled"}, '
                  f'{"vulnerable" if first_bad[2] else "not vulnerable"}, {first_bad[3]} tricks ({first_bad[4]} down): calc_bid_score = {first_bad[5]}, '
                  f'the Laws give {first_bad[6]}') if first_bad else '')
+
+
+# --------------------------------------------------------------------------------------------------------------------------------
+# R5: calc_score folded on its complete finite domain against the duplicate scoring table (oracle below)
+# --------------------------------------------------------------------------------------------------------------------------------
+def duplicate_score(level: int, strain: str, doubled: str, vul: bool, tricks: int) -> int:
+    """Duplicate-bridge score from declarer's side (Laws of Duplicate Bridge, Law 77)."""
+    need = level + 6
+    mult = {'none': 1, 'x': 2, 'xx': 4}[doubled]
+    if tricks < need:
+        return down_oracle(doubled, vul)[need - tricks - 1]
+    per = 20 if strain in 'CD' else 30
+    contract_points = (per * level + (10 if strain == 'N' else 0)) * mult
+    score = contract_points
+    score += (500 if vul else 300) if contract_points >= 100 else 50
+    if level == 6:
+        score += 750 if vul else 500
+    elif level == 7:
+        score += 1500 if vul else 1000
+    score += {'none': 0, 'x': 50, 'xx': 100}[doubled]
+    over = tricks - need
+    if doubled == 'none':
+        score += per * over
+    else:
+        score += over * (200 if vul else 100) * (2 if doubled == 'xx' else 1)
+    return score
+
+
+def _score_task(arg):
+    root, bid_names = arg
+    from ..fold import FoldRaise, Folder as F, Unsupported
+    from ..index import Repo
+    repo = Repo(root)
+    f = F(repo, allow_loops=True, max_steps=2_000_000)
+    vuls, players = f.members('Vul'), f.members('Player')
+    bad, n = [], 0
+    try:
+        for bn in bid_names:
+            b = f.member('Bid', bn)
+            level, strain = (b.value - 1) // 5 + 1, 'CDHSN'[(b.value - 1) % 5]
+            for dbl, (x_, xx_) in (('none', (False, False)), ('x', (True, False)), ('xx', (True, True))):
+                for v in vuls:
+                    for d in players:
+                        isvul = v.name == 'BOTH' or v.name == SIDE[d.name]
+                        c = f.make('Contract', final_bid=b, x=x_, xx=xx_, vul=v, declarer=d)
+                        for t in range(14):
+                            n += 1
+                            f.steps = 0
+                            try:
+                                got = ('ok', f.call_function('score', 'calc_score', c, t))
+                            except FoldRaise as r:
+                                got = ('raise', r.kind)
+                            want = duplicate_score(level, strain, dbl, isvul, t)
+                            if got != ('ok', want) and len(bad) < 3:
+                                bad.append((bn, dbl, v.name, d.name, t, got, want))
+    except Unsupported as e:
+        return {'error': str(e)[:200], 'bad': [], 'n': n}
+    return {'bad': bad, 'n': n}
+
+
+def complete_domain(chk):
+    import os
+    from concurrent.futures import ProcessPoolExecutor
+    repo = chk.repo
+    w, q = floc(repo, 'score', 'calc_score', 'C07.R5')
+    f = Folder(repo)
+    names = [b.name for b in f.members('Bid')[:35]]
+    chunks = [names[i::16] for i in range(16)]
+    work = [(repo.root, c) for c in chunks if c]
+    if os.environ.get('SA_SERIAL') == '1':
+        res = [_score_task(x) for x in work]
+    else:
+        with ProcessPoolExecutor(max_workers=len(work)) as pool:
+            res = list(pool.map(_score_task, work))
+    n = sum(r['n'] for r in res)
+    for r in res:
+        if r.get('error'):
+            raise AnalysisError('C07.R5', q, f'calc_score left the foldable subset: {r["error"]}')
+    bad = [b for r in res for b in r['bad']]
+    chk.evals(n)
+    chk.floor('C07.R5', 'points of the scoring domain folded', n, 35 * 3 * 4 * 4 * 14)
+    b0 = bad[0] if bad else None
+    chk.require(not bad, 'C07.R5', w, q, 'calc_score on the complete domain (35 bids x 3 doubling states x 4 vulnerabilities x 4 declarers x 14 trick counts)',
+                f'all {n} points of the domain score what the duplicate scoring table gives, from declarer\'s side and with the vulnerability of declarer\'s side',
+                (f'{b0[0]}{"XX" if b0[1] == "xx" else "X" if b0[1] == "x" else ""} by {b0[3]}, board vulnerability {b0[2]}, {b0[4]} tricks: calc_score = {b0[5]}, '
+                 f'the duplicate scoring table gives {b0[6]}') if b0 else '')
